@@ -590,7 +590,7 @@ func census(prop string, s *summary) string {
 		}
 		return ""
 	}
-	for _, k := range []string{"store_opened", "page_write", "header_write", "flush", "wal_write", "wal_sync", "lru_hit"} {
+	for _, k := range []string{"store_opened", "page_write", "header_write", "flush", "wal_write", "wal_sync", "wal_file_write", "lru_hit"} {
 		if m := need(k); m != "" {
 			return m
 		}
